@@ -1,14 +1,18 @@
 use crate::engine::{run, Tier};
 use std::path::PathBuf;
 
+pub mod c01;
 pub mod c02;
 pub mod c03;
+pub mod c08;
 pub mod c12;
 
 pub fn dispatch(id: &str, tier: Tier, seed: u64, replay: Option<PathBuf>) -> i32 {
     match id {
+        "C01" => run(&c01::C01, tier, seed, replay),
         "C02" => run(&c02::C02, tier, seed, replay),
         "C03" => run(&c03::C03, tier, seed, replay),
+        "C08" => run(&c08::C08, tier, seed, replay),
         "C12" => run(&c12::C12, tier, seed, replay),
         _ => {
             eprintln!("vp: unknown property {}", id);
